@@ -472,7 +472,12 @@ class ContractMixin:
             return self.singleton_ref(v)
         if isinstance(v, (FuncVal,)):
             return v
-        return coerce(v, ty)
+        r = coerce(v, ty)
+        if isinstance(v, Val) and v.ty[0] == "ref" and ty[0] == "ref" and v.ty[1] is not None and ty[1] is not None \
+                and v.ty[1] != ty[1] and self.static_subclass_safe(v.ty[1], ty[1]):
+            # keep the caller's more specific static class: clauses such as bool(self) then use the concrete method
+            r = Val(("ref", v.ty[1]) + tuple(ty[2:]), r.t)
+        return r
 
     def apply_contract(self, c, info, bound, st, k):
         """modular call: prove requires, havoc frame, assume ensures (one successor per declared outcome)"""
@@ -524,6 +529,8 @@ class ContractMixin:
                 s.last_susp = s.snap()
             else:
                 mods = self.parse_modifies(c, st, fr)
+                if mods and not c.pure and self.ABSTRACT_TRUTH in s.heap:
+                    s.heap[self.ABSTRACT_TRUTH] = fresh("Hm!truth", s.heap[self.ABSTRACT_TRUTH].sort())
                 if mods and not c.pure:
                     nb = fresh("clock", z3.IntSort())
                     s.assume(nb >= s.clock)
@@ -943,7 +950,7 @@ class ContractMixin:
                 old = st.hs.initial(st.old.epoch, hk, arr.sort())
             if arr.eq(old):
                 continue
-            if hk == self.CORO_STATE_KEY:
+            if hk in (self.CORO_STATE_KEY, self.ABSTRACT_TRUTH):
                 continue
             objs = allowed.get(hk)
             if objs is None:
